@@ -396,7 +396,7 @@ def name_universe(toks, rng, maxlen=4, sigma_cap=5, extra=(), derivations=6, ica
 
 # ---------------------------------------------------------------------------------------------
 # Path mode
-SEPS = ('/', '/', '/', '/', '//', '\\/', '\\/\\/', '/\\/', '\\//')
+SEPS = ('/', '/', '/', '/', '//', '\\/', '\\/\\/', '/\\/', '\\//', '/\\//', '\\/\\//', '//\\/', '\\///', '/\\/\\//')
 
 
 def seg_pool_small():
